@@ -8,6 +8,7 @@ import (
 	"fmt"
 	"os"
 	"os/exec"
+	"os/signal"
 	"path/filepath"
 	"regexp"
 	"runtime"
@@ -73,11 +74,47 @@ func newEnv(repo string, jobs int) (*Env, error) {
 	if jobs <= 0 {
 		jobs = runtime.NumCPU()
 	}
-	return &Env{Repo: abs, Scratch: scratch, Jobs: jobs}, nil
+	e := &Env{Repo: abs, Scratch: scratch, Jobs: jobs}
+	trackEnv(e)
+	return e, nil
+}
+
+var (
+	liveMu   sync.Mutex
+	liveEnvs = map[*Env]bool{}
+	sigOnce  sync.Once
+)
+
+// trackEnv makes sure the scratch directory is removed when the tool is interrupted.
+func trackEnv(e *Env) {
+	liveMu.Lock()
+	liveEnvs[e] = true
+	liveMu.Unlock()
+	sigOnce.Do(func() {
+		ch := make(chan os.Signal, 1)
+		signal.Notify(ch, os.Interrupt, syscall.SIGTERM, syscall.SIGHUP)
+		go func() {
+			sig := <-ch
+			liveMu.Lock()
+			envs := make([]*Env, 0, len(liveEnvs))
+			for e := range liveEnvs {
+				envs = append(envs, e)
+			}
+			liveMu.Unlock()
+			for _, e := range envs {
+				e.Close()
+			}
+			fmt.Fprintln(os.Stderr, "gr: interrupted:", sig)
+			os.Exit(2)
+		}()
+	})
 }
 
 func (e *Env) Close() {
 	if e != nil && e.Scratch != "" {
+		liveMu.Lock()
+		delete(liveEnvs, e)
+		liveMu.Unlock()
 		// the go tool leaves read-only directories only in the module cache, not here,
 		// but be defensive so that nothing is left behind.
 		_ = filepath.Walk(e.Scratch, func(p string, info os.FileInfo, err error) error {
